@@ -978,6 +978,13 @@ where
             // that foca forgets the down member (`Config::remove_down_after`)
             if message == Message::TurnUndead {
                 self.handle_self_update(Incarnation::default(), State::Down, &mut runtime)?;
+
+                // If we couldn't rejoin there's nothing new to tell the
+                // sender: replying would make two members that consider
+                // each other down bounce this message back and forth forever
+                if self.connection_state == ConnectionState::Undead {
+                    return Ok(());
+                }
             }
 
             if self.config.notify_down_members {
